@@ -260,4 +260,7 @@ for hname, pcls, nobj in [("_process_create", PL + "create.CreateRequestPayload"
     c.trace("no-effect-before-raise", t_no_effect_before_raise)
     c.trace("single-transaction", t_single_transaction)
     c.modifies("self._id_placeholder")
-contract(E + "_process_create_key_pair").loop(0, "True", havoc={})
+# the merge loop only copies entries of one attribute dictionary into another: both stay attribute
+# dictionaries (typing invariant of the loop, stated as the havoc kinds)
+contract(E + "_process_create_key_pair").loop(0, "True", havoc={"public_key_attributes": ATTRS,
+                                                              "private_key_attributes": ATTRS})
